@@ -186,7 +186,14 @@ def _strip(alt):
     return {k: v for k, v in alt.items() if k not in _CTX}
 
 
-_LOOSE = {k: [_complete(_strip(a)) for a in v] for k, v in RULES.items()}
+def _strip_negative(alt):
+    """Drop only the NEGATIVE context constraints (residue must not be ...). Node-local evaluation can lose context residues:
+    a look-behind / look-ahead that REQUIRES a residue then fails (site lost, never gained), one that FORBIDS a residue then
+    passes (site gained). So a position is a possible cut only if the positive context really holds on the haplotype."""
+    return {k: v for k, v in alt.items() if not (k in _CTX and v[0] is False and v[1] != '')}
+
+
+_LOOSE = {k: [_complete(_strip_negative(a)) for a in v] for k, v in RULES.items()}
 _FREE = {k: [_complete(a) for a in v if not any(c in a for c in _CTX)] for k, v in RULES.items()}
 
 
@@ -196,6 +203,15 @@ def has_context(rule, exception=None) -> bool:
 
 def loose_sites(seq, rule):
     return [i for i in range(1, len(seq)) if any(_match_alt(seq, i, a) for a in _LOOSE[rule])]
+
+
+_LOOSE_P1 = {k: [_complete(_strip(a)) for a in v] for k, v in RULES.items()}
+
+
+def loose_sites_no_context(seq, rule):
+    """Positions that could be sites for SOME context outside `seq` (only P1 / P1' are looked at): upper bound on the number of
+    internal sites of an isolated peptide, whose flanking residues are unknown."""
+    return [i for i in range(1, len(seq)) if any(_match_alt(seq, i, a) for a in _LOOSE_P1[rule])]
 
 
 def mandatory_sites(seq, rule, exception=None):
